@@ -26,11 +26,12 @@ open C15 C15.Trie
 the empty one, `c15_hamt_fresh`) every sequence of insertions, replacements, removals (with shard
 collapse), lookups and listings leaves the trie well-formed and canonical — no empty sub-shard, no
 sub-shard holding a single value, every key on the path of its digits, slots in bitfield order. -/
-theorem c16_hamt_canonical (h : Name → List Byte) (g : Globals) (w : Nat)
-    (ok : DigitsOK (fun n => hashDigits (h n) (lg2 w))) (st : State) (hi : IsHamt h w st) (ops : List DOp) :
+theorem c16_hamt_canonical (h : Name → List Byte) (g : Globals) (U : Name → Prop) (w : Nat)
+    (ok : DigitsOK U (fun n => hashDigits (h n) (lg2 w))) (st : State) (hi : IsHamt h U w st) (ops : List DOp)
+    (hops : ∀ op ∈ ops, OpIn U op) :
     ∃ hd, (drun h g st ops).1.dir = .hamt hd ∧ hd.width = w ∧ WF (hd.dg h) hd.shard ∧ Canon hd.shard := by
-  obtain ⟨_, hd, hdir, hw, hinv⟩ :=
-    (run_refines h g (IsHamt h w) (absState h) false (fun st op hi => hamt_step h g w ok st op hi) ops st hi).1
+  obtain ⟨_, hd, hdir, hw, hinv, _⟩ :=
+    (run_refines h g U (IsHamt h U w) (absState h) false (fun st op hi hop => hamt_step h g U w ok st op hi hop) ops st hi hops).1
   exact ⟨hd, hdir, hw, hinv.1, hinv.2⟩
 
 /-- **Canonical tries are determined by their entries**: two well-formed canonical tries denoting the
@@ -48,14 +49,14 @@ theorem c16_canonical_unique {α : Type} (H : Dag → α) (dgl : Name → List N
 /-- **History independence of the pure HAMT directory**: two arbitrary edit histories (from any two
 well-formed canonical directories of the same width, e.g. both empty) that end in the same entry
 map end in the same serialised trie, for every shard width and every hash without full collisions. -/
-theorem c16_hamt_history_independent (h : Name → List Byte) (g : Globals) (w : Nat)
-    (ok : DigitsOK (fun n => hashDigits (h n) (lg2 w))) (st1 st2 : State) (h1 : IsHamt h w st1) (h2 : IsHamt h w st2)
-    (ops1 ops2 : List DOp)
+theorem c16_hamt_history_independent (h : Name → List Byte) (g : Globals) (U : Name → Prop) (w : Nat)
+    (ok : DigitsOK U (fun n => hashDigits (h n) (lg2 w))) (st1 st2 : State) (h1 : IsHamt h U w st1) (h2 : IsHamt h U w st2)
+    (ops1 ops2 : List DOp) (hops1 : ∀ op ∈ ops1, OpIn U op) (hops2 : ∀ op ∈ ops2, OpIn U op)
     (hsame : absState h (drun h g st1 ops1).1 = absState h (drun h g st2 ops2).1) :
     ∃ hd1 hd2, (drun h g st1 ops1).1.dir = .hamt hd1 ∧ (drun h g st2 ops2).1.dir = .hamt hd2 ∧
       hd1.width = hd2.width ∧ toDag hd1.shard = toDag hd2.shard := by
-  obtain ⟨hd1, e1, hw1, wf1, cn1⟩ := c16_hamt_canonical h g w ok st1 h1 ops1
-  obtain ⟨hd2, e2, hw2, wf2, cn2⟩ := c16_hamt_canonical h g w ok st2 h2 ops2
+  obtain ⟨hd1, e1, hw1, wf1, cn1⟩ := c16_hamt_canonical h g U w ok st1 h1 ops1 hops1
+  obtain ⟨hd2, e2, hw2, wf2, cn2⟩ := c16_hamt_canonical h g U w ok st2 h2 ops2 hops2
   refine ⟨hd1, hd2, e1, e2, by rw [hw1, hw2], ?_⟩
   have hdg : hd1.dg h = hd2.dg h := by unfold Hamt.dg; rw [hw1, hw2]
   simp only [absState, e1, e2, Hamt.abs] at hsame
